@@ -162,5 +162,6 @@ def run(ck):
   c01_lib.run_library(ck)
 
 def replay(ck, data):
+  if (data.get('case') or {}).get('design') is not None and not (data.get('case') or {}).get('source'): return c01_lib.replay(ck, data)
   print(data.get('kind'), data.get('signature')); print(str(data.get('detail'))[:1500])
   return rtlgen.replay_source(ck, data.get('case') or {})
